@@ -434,6 +434,32 @@ func scaledInputs(thorough bool) map[string][][]byte {
 			out["WeightedMerkleTrie.VerifyBlockProof"] = append(out["WeightedMerkleTrie.VerifyBlockProof"], data)
 		}
 	}
+	// large exports with ONE bad entry (null, empty, garbage, truncated node) at the front, in the middle, at the end
+	{
+		big := chain(300, true)
+		var pt wmpt.PersistTrie
+		if cbor.Unmarshal(big, &pt) == nil {
+			for _, pos := range []int{0, 1, len(pt.Pairs) / 2, len(pt.Pairs) - 2, len(pt.Pairs) - 1} {
+				for kind := 0; kind < 4; kind++ {
+					pairs := append([]*wmpt.PersistTriePair{}, pt.Pairs...)
+					switch kind {
+					case 0:
+						pairs[pos] = nil
+					case 1:
+						pairs[pos] = &wmpt.PersistTriePair{}
+					case 2:
+						pairs[pos] = &wmpt.PersistTriePair{Value: []byte{0xff, 0x00, 0x13}}
+					case 3:
+						pairs[pos] = &wmpt.PersistTriePair{Value: pt.Pairs[pos].Value[:len(pt.Pairs[pos].Value)/2]}
+					}
+					if data, err := cbor.Marshal(&wmpt.PersistTrie{Pairs: pairs}); err == nil {
+						out["WeightedMerkleTrie.Deserialize"] = append(out["WeightedMerkleTrie.Deserialize"], data)
+						out["WeightedMerkleTrie.VerifyBlockProof"] = append(out["WeightedMerkleTrie.VerifyBlockProof"], data)
+					}
+				}
+			}
+		}
+	}
 	// long fields in single nodes
 	for _, n := range []int{1 << 16, 1 << 20} {
 		long := bytes.Repeat([]byte{3}, n)
@@ -848,7 +874,7 @@ func C15(tier rt.Tier) int {
 	rep.Set("accepted_inputs", int(st.accepted))
 	rep.Set("inputs_per_decoder", st.perTgt)
 	rep.Set("corpus_encodings", csize)
-	rep.Set("rule", fmt.Sprintf("for each of the four decoders: ALL byte strings of length <= %d, plus for every real encoding of the corpus (state-trie nodes of every kind, weighted-trie nodes incl. branches with embedded short children, path exports, block proofs; each decoder also sees the other formats): every truncation, every single-byte deletion, every byte value at each of the first 24 (thorough 64) positions and {00,3a,7f,80,ff} (+ every bit flip in thorough) elsewhere, separator duplication, every CBOR head rewritten to every length form incl. 4/8-byte lengths near 2^31/2^63 and indefinite, every splice head(A)+tail(B) at separator/head boundaries; plus a structure-aware enumeration for the CBOR formats: well-formed nodes whose fields take every boundary length (child entries of 0..100 bytes, 0..32 children, short-node key/value/hash lengths, several kinds at once), alone and as first/second element of exports and proofs; and CBOR type confusion: every data item of every corpus encoding, also inside embedded proof/export elements, replaced by null, 0, true, a huge integer, empty byte/text string, empty array, empty map, [null]; every entry of every export/proof replaced by an entry of another node kind with the same true hash where constructible (node hashes carry no kind tag) and by entries of every other kind repeating the recorded hash, with and without the entries behind it; plus large well-formed inputs: path exports that are chains of 64/1000/20000 (thorough 100000) one-nibble shared-prefix nodes with true hashes and with a wrong bottom hash, flat exports of 1000/200000 entries, nodes with 2^16/2^20-byte fields, state-trie type bytes followed by 2^16/2^20 separator/filler bytes; oracle: returns value or error without panic within 120 s, anything accepted is re-encoded/hashed/copied without panic; 'states' = corpus encodings; inputs are counted, not deduplicated", maxLen))
+	rep.Set("rule", fmt.Sprintf("for each of the four decoders: ALL byte strings of length <= %d, plus for every real encoding of the corpus (state-trie nodes of every kind, weighted-trie nodes incl. branches with embedded short children, path exports, block proofs; each decoder also sees the other formats): every truncation, every single-byte deletion, every byte value at each of the first 24 (thorough 64) positions and {00,3a,7f,80,ff} (+ every bit flip in thorough) elsewhere, separator duplication, every CBOR head rewritten to every length form incl. 4/8-byte lengths near 2^31/2^63 and indefinite, every splice head(A)+tail(B) at separator/head boundaries; plus a structure-aware enumeration for the CBOR formats: well-formed nodes whose fields take every boundary length (child entries of 0..100 bytes, 0..32 children, short-node key/value/hash lengths, several kinds at once), alone and as first/second element of exports and proofs; and CBOR type confusion: every data item of every corpus encoding, also inside embedded proof/export elements, replaced by null, 0, true, a huge integer, empty byte/text string, empty array, empty map, [null]; every entry of every export/proof replaced by an entry of another node kind with the same true hash where constructible (node hashes carry no kind tag) and by entries of every other kind repeating the recorded hash, with and without the entries behind it; plus large well-formed inputs: path exports that are chains of 64/1000/20000 (thorough 100000) one-nibble shared-prefix nodes with true hashes and with a wrong bottom hash, flat exports of 1000/200000 entries, a 301-entry export with one null / empty / garbage / truncated entry at the front, in the middle and at the end, nodes with 2^16/2^20-byte fields, state-trie type bytes followed by 2^16/2^20 separator/filler bytes; oracle: returns value or error without panic within 120 s, anything accepted is re-encoded/hashed/copied without panic; 'states' = corpus encodings; inputs are counted, not deduplicated", maxLen))
 	rep.Sample(map[string]any{"decoder": "util.CreateNode", "input_hex": "02"})
 	if c := corp["wmpt.DeserializeNode"]; len(c) > 0 {
 		rep.Sample(map[string]any{"decoder": "wmpt.DeserializeNode", "corpus_encoding_hex": hex.EncodeToString(c[0])})
